@@ -1088,3 +1088,16 @@ def all_calls(prog, pred):
             if m(t["f"]):
                 out.append((fn, i, t))
     return out
+
+
+def noref(t):
+    """the same term with every reference / dereference node removed (auto-ref insensitive comparison)"""
+    if isinstance(t, frozenset):
+        return frozenset(noref(x) for x in t)
+    if not isinstance(t, tuple) or not t:
+        return t
+    if isinstance(t[0], str):
+        if t[0] in ("ref", "deref") and len(t) == 2:
+            return noref(t[1])
+        return (t[0],) + tuple(noref(x) if isinstance(x, (tuple, frozenset)) else x for x in t[1:])
+    return tuple(noref(x) if isinstance(x, (tuple, frozenset)) else x for x in t)
